@@ -36,6 +36,7 @@ FIXMAP = {
  'merge result series that share a label set': ['C19', 'C01'],
  'copy the points of a remote result': ['C12'],
  'scalar() declares the series': ['C18'],
+ 'sum and avg seed the accumulator': ['C04', 'C05'],
  'a cancelled evaluation is reported': ['C14'],
 }
 log = subprocess.run(['git', '-C', '/repo', 'log', '--format=%h %s', '--reverse'], capture_output=True, text=True).stdout.strip().split('\n')
